@@ -7,6 +7,8 @@
 
 pub mod core;
 include!(concat!(env!("OUT_DIR"), "/gen.rs"));
+#[cfg(verif_all)]
+pub mod fuzz_table;
 
 use crate::core::{Tier, WorkerArgs};
 
@@ -31,6 +33,32 @@ pub fn main_entry() {
                 })
                 .collect();
             println!("{}", serde_json::to_string(&v).unwrap());
+        }
+        #[cfg(verif_all)]
+        "corpus" => {
+            let id = args.get(2).cloned().unwrap_or_default();
+            let dir = args.get(3).cloned().unwrap_or_default();
+            let n: usize = args.get(4).and_then(|s| s.parse().ok()).unwrap_or(200);
+            std::fs::create_dir_all(&dir).ok();
+            for (i, b) in fuzz_table::corpus(&id, n).iter().enumerate() {
+                std::fs::write(format!("{dir}/seed-{i:04}"), b).ok();
+            }
+        }
+        #[cfg(verif_all)]
+        "bytes" => {
+            // verif-driver bytes <Cxx> <file>: run the byte-driven entry of a monitor on one input (fuzz artifact replay)
+            core::install_panic_hook();
+            let id = args.get(2).cloned().unwrap_or_default();
+            let data = std::fs::read(args.get(3).cloned().unwrap_or_default()).unwrap_or_default();
+            let Some(f) = fuzz_table::entry(&id) else {
+                eprintln!("no byte-driven entry for {id}");
+                std::process::exit(2);
+            };
+            let v = core::run_bytes(f, &data);
+            for x in &v {
+                println!("VERIF-FUZZ-VIOLATION sig={} what={}", x.sig, x.what);
+            }
+            std::process::exit(if v.is_empty() { 0 } else { 1 });
         }
         "run" => {
             let id = args.get(2).cloned().unwrap_or_default();
